@@ -68,8 +68,30 @@ def solve(pep, backend="cvxpy", solver="CLARABEL", mode="dual", dr=None, verbose
         kw["tol_dimension_reduction"] = tol_dr
     if reg is not None:
         kw["eig_regularization"] = reg
-    out = dict(value=None, exc=None, status=None, stdout="", task=None, wrapper_name=None)
+    out = dict(value=None, exc=None, status=None, stdout="", task=None, wrapper_name=None, statuses=[])
     buf = io.StringIO()
+    # the status of EVERY solver call of this solve (the multipliers come from the first one, the instance from the last one)
+    from PEPit.wrappers.cvxpy_wrapper import CvxpyWrapper as _CW
+    from PEPit.wrappers.mosek_wrapper import MosekWrapper as _MW
+    _orig = {}
+
+    def _wrap(cls):
+        orig = cls.solve
+        _orig[cls] = orig
+
+        def solve_and_note(self, *a, **k):
+            res = orig(self, *a, **k)
+            try:
+                st = res[0]
+                if cls is _MW:      # the stand-in keeps the solver status of the latest optimize() in its solution record
+                    st = (getattr(self.task, "sol", None) or {}).get("status")
+                out["statuses"].append(st)
+            except Exception:
+                pass
+            return res
+        cls.solve = solve_and_note
+    _wrap(_CW)
+    _wrap(_MW)
     try:
         with contextlib.redirect_stdout(buf), _fd_capture(verbose >= 2) as fdcap:
             if backend == "mosek":
@@ -85,6 +107,10 @@ def solve(pep, backend="cvxpy", solver="CLARABEL", mode="dual", dr=None, verbose
                                          dimension_reduction_heuristic=dr, **kw)
     except Exception as e:  # the caller decides what an exception means for its property
         out["exc"] = e
+    finally:
+        for cls_, orig_ in _orig.items():
+            cls_.solve = orig_
+    out["first_status"] = out["statuses"][0] if out["statuses"] else None
     out["stdout"] = buf.getvalue() + fdcap.get("text", "")
     out["wrapper_name"] = pep.wrapper_name
     w = pep.wrapper
